@@ -802,6 +802,25 @@ fn try_complete_cycle_head(
 
     let this_converged = value_converged && metadata_converged;
 
+    #[cfg(feature = "verif_hooks")]
+    let verif_trace_head = {
+        let deps_stable = last_provisional_revisions
+            .origin()
+            .inputs()
+            .eq(completed_query.revisions.origin().inputs());
+        move |nested: bool, finalized: bool| {
+            crate::verif_hooks::trace(crate::verif_hooks::TraceEvent::CycleHead {
+                ingredient: me.ingredient_index().as_u32(),
+                key: me.key_index().as_bits(),
+                iteration: max_iteration.iteration_as_u32(),
+                nested,
+                finalized,
+                value_converged,
+                deps_stable,
+            });
+        }
+    };
+
     if let Some(outer_cycle) = outer_cycle {
         tracing::info!(
             "Detected nested cycle {me:?}, iterate it as part of the outer cycle {outer_cycle:?}"
@@ -819,6 +838,9 @@ fn try_complete_cycle_head(
         // Transfer ownership of this query to the outer cycle, so that it can claim it
         // and other threads don't compete for the same lock.
         claim_guard.set_release_mode(ReleaseMode::TransferTo(outer_cycle));
+
+        #[cfg(feature = "verif_hooks")]
+        verif_trace_head(true, false);
 
         return Ok(completed_query);
     }
@@ -864,6 +886,9 @@ fn try_complete_cycle_head(
 
         *completed_query.revisions.verified_final.get_mut() = true;
 
+        #[cfg(feature = "verif_hooks")]
+        verif_trace_head(false, true);
+
         zalsa.event(&|| {
             Event::new(EventKind::DidFinalizeCycle {
                 database_key: me,
@@ -873,6 +898,9 @@ fn try_complete_cycle_head(
 
         return Ok(completed_query);
     }
+
+    #[cfg(feature = "verif_hooks")]
+    verif_trace_head(false, false);
 
     // The fixpoint iteration hasn't converged. Iterate again...
     let iteration = max_iteration.increment_iteration().unwrap_or_else(|| {
